@@ -310,10 +310,8 @@ class C14(Prop):
             if q < 0.2:
                 c["raise_error"] = True
             elif q < 0.35:
-                # TODO(defect): Dataset.reindex_axis(method='right') looks the labels up with side='left' (take_axis in clip
-                # mode) whereas DimArray.reindex_axis(method='right') uses searchsorted's right side: the two differ on
-                # every label that is present; only method='left' is generated until that is decided
-                c["method"] = "left"
+                # (method='right' takes searchsorted's right side: it differs from 'left' on every label that is present)
+                c["method"] = rng.choice(["left", "right"])
             c["vform"] = rng.choice(["array", "array", "list", "axis"])
         return c
 
@@ -351,10 +349,8 @@ class C14(Prop):
         if how == "scalar" and rng.random() < 0.25:
             c["operator"] = "pow"
         if how == "rscalar":
-            # TODO(defect): scalar - ds, scalar / ds, scalar // ds, scalar ** ds raise AttributeError ('int' object has no
-            # attribute '_binary_op': Dataset inherits OpMixin._rbinary_op) whereas scalar - ds[k] works; only the
-            # commutative reflected operators are generated until that is decided
-            c["operator"] = rng.choice(["add", "mul"])
+            # (the reflected operators that do not commute go through Dataset._rbinary_op)
+            c["operator"] = rng.choice(["add", "mul", "sub", "truediv", "floordiv", "pow"])
         if how in ("iscalar", "ids"):
             c["operator"] = rng.choice(["iadd", "isub", "imul"])
         if how == "ds_ds_other":
@@ -419,13 +415,8 @@ class C14(Prop):
                 c["by"] = rng.choice(["name", "pos", "default"])
                 if c["by"] == "default" and ds_dims(dd)[0] != c["dim"]:
                     c["by"] = "name"
-                # TODO(defect): concatenate_ds hands an integer axis (also the default 0) to every per-variable concatenate,
-                # which reads it as a position in THAT variable, not in the dataset: variables holding the dimension at
-                # another position are joined along the wrong axis (an error, mostly).  Integer / default axes are generated
-                # only where every variable has the dimension at the dataset's position
-                p = ds_dims(dd).index(c["dim"])
-                if c["by"] != "name" and any(p >= len(v["dims"]) or v["dims"][p] != c["dim"] for v in dd["vars"].values()):
-                    c["by"] = "name"
+                # (an integer axis, also the default 0, is a position in the DATASET: the variables may hold the dimension
+                # at another position)
         return c
 
     # ------------------------------------------------------------ implementation side
@@ -756,16 +747,8 @@ class C14(Prop):
 
     @staticmethod
     def defect_axis_attrs(c):
-        """TODO(defect): Dataset.take_axis / sort_axis / reindex_axis (and reindex_like, a chain of reindex_axis) rebuild
-        the operated axis as Axis(values, name) and drop its metadata, whereas DimArray.take_axis / sort_axis /
-        reindex_axis keep it; until that is decided the metadata of the operated axis is not compared for these
-        operations (the metadata of the other axes, of the variables and of the dataset is)"""
-        if c["op"] in ("take_axis", "sort_axis", "reindex_axis"):
-            return (c["dim"],)
-        if c["op"] == "like" and c["fn"] == "reindex_like":
-            return tuple(a["name"] for a in c["template"])
-        if c["op"] in ("stack_ds", "concatenate_ds") and c.get("align"):
-            return tuple(c["ds"]["dims"])          # (aligned through Dataset.reindex_axis)
+        """axes whose metadata is not compared: none (Dataset.take_axis / sort_axis / reindex_axis / reindex_like keep the
+        metadata of the operated axis, as the DimArray methods do)"""
         return ()
 
     def known(self, c, io, ans, mm, open_findings):
